@@ -117,7 +117,7 @@ func runChild(cfg hx.Config) error {
 	r.Notes["cancel_during_enrichment_scenarios"] = ncancel
 	// controlled schedules: the protocol machine must reproduce every transition
 	nproto := cfg.N(3000, 30000)
-	for i := 0; i < nproto && !r.Stop() && !tooManyHangs(); i++ {
+	for i := 0; i < nproto && !r.Stop() && !tooManyHangs() && !tooManyStucks(); i++ {
 		sc := protoScenario(rnd, r.Count)
 		var lim int
 		switch c := rnd.Intn(10); {
@@ -131,7 +131,7 @@ func runChild(cfg hx.Config) error {
 		controlled(r, rnd, sc, lim, i%4 == 3)
 	}
 	nenrich := cfg.N(2000, 15000)
-	for i := 0; i < nenrich && !r.Stop() && !tooManyHangs(); i++ {
+	for i := 0; i < nenrich && !r.Stop() && !tooManyHangs() && !tooManyStucks(); i++ {
 		sc := enrichScenario(rnd, r.Count)
 		lim := 1 + rnd.Intn(4)
 		if rnd.Chance(1, 4) {
